@@ -283,3 +283,14 @@ func (ex *Exec) keyVal(k *Term, kt types.Type) Val {
 	unsup("iteration over map with key type %s", kt)
 	return nil
 }
+
+
+// iterOf finds the iterator value whose state lives in cell.
+func (ex *Exec) iterOf(fr *Frame, cell *Cell) (IterV, bool) {
+	for _, v := range fr.regs {
+		if it, ok := v.(IterV); ok && it.State == cell {
+			return it, true
+		}
+	}
+	return IterV{}, false
+}
